@@ -23,6 +23,16 @@ MCInitTreesC == {C1, C2, C3, C6}
 C4 == MkTree({<<"pkg">>, <<"q">>}, (<<"a">> :> 3) @@ (<<"b">> :> 5) @@ (<<"pkg","b">> :> 1) @@ (<<"q","i">> :> 0))
 C5 == MkTree({<<"pkg">>, <<"q">>}, (<<"a">> :> 5) @@ (<<"pkg","b">> :> 4) @@ (<<"pkg","i">> :> 0))
 MCInitTreesC2 == {C4, C5}
+\* a module turned into a package: "A" is the folder a/ next to a.py ("a"); a.py can be moved to
+\* a/__init__.py (<<"A","i">>), both spell the module name `a`
+C7 == MkTree({}, (<<"a">> :> 1) @@ (<<"b">> :> 2))
+C8 == MkTree({<<"A">>}, (<<"a">> :> 4) @@ (<<"b">> :> 2))
+MCInitTreesC3 == {C7, C8}
+MCExclusive == { << <<"a">>, <<"A", "i">> >> }
+MCUniverse3 == { <<"a">>, <<"b">>, <<"A">>, <<"A","i">> }
+\* two plain modules, one importing the other: repeated query / change / query histories
+MCInitTreesC4 == {C7}
+MCUniverse4 == { <<"a">>, <<"b">> }
 MCUniverse2 == { <<"a">>, <<"b">>, <<"pkg">>, <<"q">>, <<"pkg","b">>, <<"q","b">> }
 
 \* "t" is rendered as a non-Python file (t.txt): a module can be moved out of sight and back
